@@ -69,6 +69,19 @@ def incRev : List UInt8 → List UInt8
   | b :: bs => if b = 0xff then 0 :: incRev bs else (b + 1) :: bs
 def incV (v : List UInt8) : List UInt8 := (incRev v.reverse).reverse
 
+/-- the same loop with its literals as parameters, in C order (j = hi down to lo on the array itself):
+    `for (int j = hi; j >= lo; j--) if (V[j] == cmp) V[j] = reset; else { V[j]++; break; }`.
+    `n` counts the remaining iterations, the current index is `lo + n - 1`.  The translator re-extracts
+    (hi, lo, cmp, reset) of both loops of the C file (SqiGen.Drbg); SqiProps.C20 proves that with the extracted
+    literals this is `incV`, i.e. `+1 mod 2^128`. -/
+def incLoopAux (cmp reset : UInt8) (lo : Nat) : Nat → List UInt8 → List UInt8
+  | 0, v => v
+  | n + 1, v =>
+    if v.getD (lo + n) 0 = cmp then incLoopAux cmp reset lo n (v.set (lo + n) reset)
+    else v.set (lo + n) (v.getD (lo + n) 0 + 1)
+def incLoop (hi lo : Nat) (cmp reset : UInt8) (v : List UInt8) : List UInt8 :=
+  incLoopAux cmp reset lo (hi + 1 - lo) v
+
 /-- `AES256_CTR_DRBG_Update(provided_data, Key, V)`; `none` = NULL -/
 def update (E : List UInt8 → List UInt8 → List UInt8) (provided : Option (List UInt8)) (key v : List UInt8) :
     List UInt8 × List UInt8 :=
